@@ -14,7 +14,7 @@
 (*   SingleByteDecoder::decode_to_utf8_raw / _utf16_raw                    *)
 (*   UserDefinedDecoder, ReplacementDecoder, Iso2022JpDecoder, Utf8Decoder *)
 (*   Handles: check_space_bmp/astral, copy_ascii_from_check_space_*        *)
-(* Variants not yet transcribed (UTF-16, gb18030, EUC-JP) use the          *)
+(* Variants not yet transcribed (gb18030, EUC-JP) use the                  *)
 (* generic decoder_function! shape driven by Layer S ("abstract variant"): *)
 (* contract-conformant, but not expected to predict the real code's exact  *)
 (* stopping points.                                                        *)
@@ -266,9 +266,128 @@ Utf8Loop(v, c0) ==
         ELSE Utf8Loop([v EXCEPT !.st = r.st], Wr(c1, r.emit))
 
 (***************************************************************************)
+(* Utf16Decoder: decoder_functions! with preamble (pending_bmp),           *)
+(* loop_preamble = the bulk path copy_utf16_from when no byte / surrogate  *)
+(* is pending, eof block with its own space check, destination_check =     *)
+(* check_space_astral.  v.st.a = lead_byte + 1 (0 = none), v.st.b =        *)
+(* lead_surrogate, v.pp = pending_bmp (as in Layer S's Utf16H).            *)
+(***************************************************************************)
+UnitAt(be, src, pos, k) ==      \* k-th code unit (0-based) of the bytes after position pos
+  LET x == src[pos + 2 * k + 1]
+      y == src[pos + 2 * k + 2]
+  IN  IF be THEN x * 256 + y ELSE y * 256 + x
+
+\* Utf16Destination::copy_utf16_from: returns [c, err]
+RECURSIVE Copy16To16(_, _, _, _, _)
+Copy16To16(be, c, n, offset, acc) ==      \* acc = scalars copied so far (units copied = offset)
+  LET sur == {j \in offset..(n - 1) : IsSurrogate(UnitAt(be, c.src, c.pos, j))} IN
+  IF sur = {} THEN
+    [c |-> [c EXCEPT !.pos = @ + 2 * n, !.w = @ + n,
+                     !.out = @ \o acc \o [k \in 1..(n - offset) |-> UnitAt(be, c.src, c.pos, offset + k - 1)]],
+     err |-> FALSE]
+  ELSE
+    LET j == CHOOSE j \in sur : \A q \in sur : j <= q
+        bmp == [k \in 1..(j - offset) |-> UnitAt(be, c.src, c.pos, offset + k - 1)]
+        u == UnitAt(be, c.src, c.pos, j)
+        secondPos == j + 1
+        bad == [c |-> [c EXCEPT !.pos = @ + 2 * secondPos, !.w = @ + j, !.out = @ \o acc \o bmp], err |-> TRUE]
+    IN  IF u > 56319 \/ secondPos = n THEN bad
+        ELSE LET second == UnitAt(be, c.src, c.pos, secondPos) IN
+          IF ~IsLow(second) THEN bad
+          ELSE Copy16To16(be, c, n, j + 2, acc \o bmp \o <<65536 + (u - 55296) * 1024 + (second - 56320)>>)
+
+\* convert_unaligned_utf16_to_utf8 (Utf8Destination::copy_utf16_from): i = next unit index, dp = bytes written
+RECURSIVE Conv16To8Outer(_, _, _, _, _, _), Conv16To8Inner(_, _, _, _, _, _, _)
+Conv16To8Outer(be, c, n, i, dp, acc) ==
+  LET room == (c.cap - c.w) - dp
+      left == n - i
+      length == IF room < left THEN room ELSE left
+      nonAscii == {j \in i..(i + length - 1) : UnitAt(be, c.src, c.pos, j) >= 128}
+      run == IF nonAscii = {} THEN length ELSE (CHOOSE j \in nonAscii : \A q \in nonAscii : j <= q) - i
+      ascii == [k \in 1..run |-> UnitAt(be, c.src, c.pos, i + k - 1)]
+      i1 == i + run
+      dp1 == dp + run
+  IN  IF nonAscii = {} THEN [i |-> i1, dp |-> dp1, out |-> acc \o ascii, err |-> FALSE]
+      ELSE IF dp1 >= (c.cap - c.w) - 3 THEN [i |-> i1, dp |-> dp1, out |-> acc \o ascii, err |-> FALSE]
+      ELSE Conv16To8Inner(be, c, n, i1 + 1, dp1, acc \o ascii, UnitAt(be, c.src, c.pos, i1))
+
+Conv16To8Inner(be, c, n, i, dp, acc, u) ==      \* u has been read (i already past it)
+  LET bad == [i |-> i, dp |-> dp, out |-> acc, err |-> TRUE] IN
+  IF ~IsSurrogate(u) THEN
+    LET dp1 == dp + Utf8Len(u)
+        acc1 == Append(acc, u)
+    IN  IF dp1 >= (c.cap - c.w) - 3 \/ i = n THEN [i |-> i, dp |-> dp1, out |-> acc1, err |-> FALSE]
+        ELSE LET nx == UnitAt(be, c.src, c.pos, i) IN
+          IF nx > 127 THEN Conv16To8Inner(be, c, n, i + 1, dp1, acc1, nx)
+          ELSE Conv16To8Outer(be, c, n, i + 1, dp1 + 1, Append(acc1, nx))
+  ELSE IF IsHigh(u) THEN
+    (IF i < n /\ IsLow(UnitAt(be, c.src, c.pos, i)) THEN
+       LET cp == 65536 + (u - 55296) * 1024 + (UnitAt(be, c.src, c.pos, i) - 56320)
+           dp1 == dp + 4
+           acc1 == Append(acc, cp)
+           i1 == i + 1
+       IN  IF dp1 >= (c.cap - c.w) - 3 \/ i1 = n THEN [i |-> i1, dp |-> dp1, out |-> acc1, err |-> FALSE]
+           ELSE LET nx == UnitAt(be, c.src, c.pos, i1) IN
+             IF nx > 127 THEN Conv16To8Inner(be, c, n, i1 + 1, dp1, acc1, nx)
+             ELSE Conv16To8Outer(be, c, n, i1 + 1, dp1 + 1, Append(acc1, nx))
+     ELSE bad)
+  ELSE bad
+
+Utf16BulkCopy(be, c) ==
+  LET srcUnits == (Len(c.src) - c.pos) \div 2
+      dstRem == c.cap - c.w
+  IN
+  IF ~U8(c.sink) THEN
+    LET n0 == IF srcUnits < dstRem THEN srcUnits ELSE dstRem
+        n == IF n0 > 0 /\ IsHigh(UnitAt(be, c.src, c.pos, n0 - 1)) THEN n0 - 1 ELSE n0
+    IN  IF n0 = 0 THEN [c |-> c, err |-> FALSE] ELSE Copy16To16(be, c, n, 0, <<>>)
+  ELSE
+    LET n == IF srcUnits > 0 /\ IsHigh(UnitAt(be, c.src, c.pos, srcUnits - 1)) THEN srcUnits - 1 ELSE srcUnits
+    IN  IF srcUnits = 0 \/ dstRem < 4 THEN [c |-> c, err |-> FALSE]
+        ELSE LET r == Conv16To8Outer(be, c, n, 0, 0, <<>>)
+             IN  [c |-> [c EXCEPT !.pos = @ + 2 * r.i, !.w = @ + r.dp, !.out = @ \o r.out], err |-> r.err]
+
+RECURSIVE Utf16Loop(_, _, _)
+Utf16Loop(be, v, c0) ==
+  LET bulk == IF v.st.a = 0 /\ v.st.b = 0 THEN Utf16BulkCopy(be, c0) ELSE [c |-> c0, err |-> FALSE]
+      c == bulk.c
+  IN
+  IF bulk.err THEN Ret(v, "M", 2, 0, c)
+  ELSE IF SrcEmpty(c) THEN
+    IF c.last /\ (v.st.b # 0 \/ v.st.a # 0) THEN
+      \* eof block: "return (DecoderResult::OutputFull, 0, 0)" is transcribed literally
+      (IF ~SpaceBmp(c) THEN [v |-> v, res |-> "O", ml |-> 0, ma |-> 0, read |-> 0, written |-> 0, out |-> <<>>]
+       ELSE IF v.st.b # 0 THEN Ret([v EXCEPT !.st = Blank], "M", IF v.st.a = 0 THEN 2 ELSE 3, 0, c)
+       ELSE Ret([v EXCEPT !.st = Blank], "M", 1, 0, c))
+    ELSE Ret(v, "I", 0, 0, c)
+  ELSE IF ~SpaceAstral(c) THEN Ret(v, "O", 0, 0, c)
+  ELSE
+    LET b == Peek(c)
+        c1 == Adv(c, 1)
+    IN  IF v.st.a = 0 THEN Utf16Loop(be, [v EXCEPT !.st.a = b + 1], c1)
+        ELSE
+          LET lead == v.st.a - 1
+              unit == IF be THEN lead * 256 + b ELSE b * 256 + lead
+              v1 == [v EXCEPT !.st.a = 0]
+          IN  IF IsHigh(unit) THEN
+                (IF v.st.b # 0 THEN Ret([v1 EXCEPT !.st.b = unit], "M", 2, 2, c1)
+                 ELSE Utf16Loop(be, [v1 EXCEPT !.st.b = unit], c1))
+              ELSE IF IsLow(unit) THEN
+                (IF v.st.b = 0 THEN Ret(v1, "M", 2, 0, c1)
+                 ELSE Utf16Loop(be, [v1 EXCEPT !.st.b = 0], Wr(c1, <<65536 + (v.st.b - 55296) * 1024 + (unit - 56320)>>)))
+              ELSE IF v.st.b # 0 THEN Ret([v1 EXCEPT !.st.b = unit, !.pp = TRUE], "M", 2, 2, c1)
+              ELSE Utf16Loop(be, v1, Wr(c1, <<unit>>))
+
+Utf16Raw(be, v, c) ==
+  IF v.pp THEN
+    IF ~SpaceBmp(c) THEN Ret(v, "O", 0, 0, c)
+    ELSE Utf16Loop(be, [v EXCEPT !.pp = FALSE, !.st.b = 0], Wr(c, <<v.st.b>>))
+  ELSE Utf16Loop(be, v, c)
+
+(***************************************************************************)
 (* VariantDecoder dispatch                                                 *)
 (***************************************************************************)
-ExactVariant(enc) == Family(enc) \in {"big5", "euckr", "sjis", "sb", "userdef", "repl", "iso2022jp", "utf8"}
+ExactVariant(enc) == Family(enc) \in {"big5", "euckr", "sjis", "sb", "userdef", "repl", "iso2022jp", "utf8", "utf16be", "utf16le"}
 
 Raw(enc, v, src, cap, last, sink) ==
   LET c == NewCtx(src, cap, last, sink)
@@ -279,8 +398,10 @@ Raw(enc, v, src, cap, last, sink) ==
         [] f = "repl" -> ReplacementRaw(v, c)
         [] f = "iso2022jp" -> IsoRaw(v, c)
         [] f = "utf8" -> Utf8Loop(v, c)
+        [] f = "utf16be" -> Utf16Raw(TRUE, v, c)
+        [] f = "utf16le" -> Utf16Raw(FALSE, v, c)
         [] f = "gb" -> DFGeneric(enc, "astral", v, c)
-        [] OTHER -> DFGeneric(enc, IF f \in {"utf16be", "utf16le"} THEN "astral" ELSE "bmp", v, c)
+        [] OTHER -> DFGeneric(enc, "bmp", v, c)
 
 (***************************************************************************)
 (* Decoder: life cycle (public_decode_function!)                           *)
